@@ -485,103 +485,7 @@ func c12(w *core.World, r *core.Report) {
 
 	// ---- LOSSY
 	r.Rule("LOSSY", 5, "no lossy numeric conversion (narrowing, sign change, float<->integer, 64-bit integer -> float) on a value that comes from a TypedValue numeric getter, a schema number or a strconv parse, in pkg/utils, pkg/tree, pkg/datastore and the netconf package; conversions whose source is bounded on the path (frozen, reasoned exceptions per function) are listed. Decides: no silent truncation / sign flip of values and schema bounds.")
-	nLossy := 0
-	for _, f := range w.RepoFns {
-		if f.Pkg == nil {
-			continue
-		}
-		pp := core.PkgPath(f)
-		if !(pp == core.Module+"/pkg/utils" || pp == core.Module+"/pkg/tree" || pp == core.Module+"/pkg/datastore/target/netconf" || pp == core.Module+"/pkg/datastore") {
-			continue
-		}
-		for _, b := range f.Blocks {
-			for _, in := range b.Instrs {
-				cv, ok := in.(*ssa.Convert)
-				if !ok {
-					continue
-				}
-				lossy, why := lossyConvert(cv.X.Type(), cv.Type())
-				if !lossy {
-					continue
-				}
-				src := numericValueSource(cv.X)
-				if src == "" {
-					continue
-				}
-				site := core.Site(f, "convert %s -> %s of %s", cv.X.Type(), cv.Type(), shortSrc(src))
-				if wordBits == 32 {
-					// decided for the shipped 64-bit targets; a conversion that is lossy only because int is 32 bits is reported as information
-					wordBits = 64
-					l64, _ := lossyConvert(cv.X.Type(), cv.Type())
-					wordBits = 32
-					if !l64 {
-						r.Info("LOSSY", site, w.InstrPos(cv), "portability: lossy ("+why+") only when int is 32 bits; the released binaries are 64-bit")
-						continue
-					}
-				}
-				nLossy++
-				reason, ok := lossyExceptions[core.FuncKey(f)+"|"+cv.X.Type().String()+"->"+cv.Type().String()]
-				if !ok {
-					// code moved into an unexported helper keeps the exception of the function it was moved out of
-					reason, ok = lossyExceptions[core.HostKey(f)+"|"+cv.X.Type().String()+"->"+cv.Type().String()]
-				}
-				if ok {
-					r.OK("LOSSY", site, w.InstrPos(cv), "frozen exception: "+reason)
-					continue
-				}
-				// ParseInt/ParseUint with a bit size <= destination width is bounded
-				if bounded(cv) {
-					r.OK("LOSSY", site, w.InstrPos(cv), "source bounded by the parse bit size")
-					continue
-				}
-				r.Viol("LOSSY", site, w.InstrPos(cv), "lossy conversion ("+why+") of a value / schema bound")
-			}
-		}
-	}
-	r.Extra["lossy_candidates"] = nLossy
-
-	// ---- TYPE-NAMES
-	r.Rule("TYPE-NAMES", 50, "each string switch over YANG type names covers the 19 built-in types of RFC 7950 or the missing ones are listed with the policy of the no-match path (preserves / rejects), confirmed by reading.")
-	for _, ts := range typeNameSwitches {
-		f := w.Func(ts.Pkg, ts.Recv, ts.Name)
-		if f == nil {
-			continue
-		}
-		have := stringSwitchConsts(f)
-		// the table form of the switch: the keys of a package-level map of converters looked up by the type name
-		for _, c := range core.Calls(f) {
-			if _, table := dispatchTable(w, c); table != nil {
-				for k := range table {
-					have[k] = true
-				}
-			}
-		}
-		for _, y := range yangTypes {
-			site := core.Site(f, "type %s", y)
-			if have[y] {
-				r.OK("TYPE-NAMES", site, w.Pos(f.Pos()), "case present")
-			} else if reason, ok := ts.Missing[y]; ok {
-				r.OK("TYPE-NAMES", site, w.Pos(f.Pos()), "no case: "+reason)
-			} else {
-				r.Viol("TYPE-NAMES", site, w.Pos(f.Pos()), "YANG built-in type without a case and without a recorded no-match policy: values of that type are dropped or mis-typed")
-			}
-		}
-	}
-	// the no-match path of convertStringToTv must not return (nil, nil)
-	if f := w.Func("pkg/utils", "", "convertStringToTv"); f != nil {
-		ok := true
-		for _, ret := range core.Returns(f) {
-			vals := core.ReturnValues(ret)
-			if len(vals) == 2 && core.IsNilConst(vals[0]) && core.IsNilConst(vals[1]) {
-				ok = false
-			}
-		}
-		r.Check(ok, "TYPE-NAMES", core.Site(f, "no (nil, nil) return"), w.Pos(f.Pos()), "a conversion that yields neither a value nor an error drops the value silently")
-	}
-
-	// ---- DECIMAL-SIGN
-	r.Rule("DECIMAL-SIGN", 1, "rendering of decimal64: wherever an integer formatter (strconv.FormatInt, fmt.Sprintf, ...) receives a value that depends on Decimal64.Digits, it receives the whole number (no integer division / remainder in between) or the function tests the sign of Digits itself. A renderer that formats digits/10^p and |digits%10^p| separately drops the sign of every value in (-1,0). Structural necessary condition only; the digits themselves are not checked.")
-	ruleDecimalSign(w, r, "DECIMAL-SIGN")
+	ruleLossy(w, r, "LOSSY")
 
 	// ---- JSON-NUMBER
 	r.Rule("JSON-NUMBER", 0, "a number taken out of decoded JSON as a float64 (type assertion / type switch on an 'any' value) is not rendered back into text (strconv.FormatFloat, fmt.Sprint*): encoding/json decodes every number into a float64 unless the decoder was told UseNumber(), so 64-bit integers above 2^53 and 18-digit decimal64 values are rounded on the way. Frozen exceptions per function.")
@@ -637,6 +541,24 @@ func c12(w *core.World, r *core.Report) {
 					}
 				}
 			}
+		}
+	}
+
+	// ---- PARSE-BASE-10
+	r.Rule("PARSE-BASE-10", 10, "YANG integer text is decimal (RFC 7950 9.2.1 lexical representation; the canonical form has no leading zeros but the lexical form allows them): every strconv.ParseInt / ParseUint of pkg/utils and pkg/datastore that turns value text into a number passes the constant base 10. A base taken from the text (0, or a helper that looks at a leading 0 / 0x) reads \"010\" as 8 and rejects \"09\".")
+	for _, f := range w.RepoFns {
+		if f.Pkg == nil {
+			continue
+		}
+		if pp := core.PkgPath(f); pp != core.Module+"/pkg/utils" && pp != core.Module+"/pkg/datastore" {
+			continue
+		}
+		for _, c := range core.OwnCalls(f) {
+			if !core.CalleeIs(c, "strconv.ParseInt", "strconv.ParseUint") || len(c.Common().Args) != 3 {
+				continue
+			}
+			n, isC := core.ConstInt(c.Common().Args[1])
+			r.Check(isC && n == 10, "PARSE-BASE-10", core.Site(f, "%s base", core.CalleeKey(c)), w.InstrPos(c), "the base of the parse is not the constant 10: the same text then denotes different numbers on different paths (Convert vs convertStringToTv) and decimal text with a leading zero is misread")
 		}
 	}
 
@@ -910,4 +832,105 @@ func ruleLeaflistRecurse(w *core.World, r *core.Report, rule string, only map[st
 		rec := core.RecursesInLoop(f)
 		r.Check(rec, rule, core.Site(f, "recurses for elements"), w.Pos(f.Pos()), "leaf-list elements are not converted by the converter itself")
 	}
+}
+
+// ruleLossy (C12, C10): no lossy numeric conversion of values / schema bounds.
+func ruleLossy(w *core.World, r *core.Report, ruleName string) {
+	nLossy := 0
+	for _, f := range w.RepoFns {
+		if f.Pkg == nil {
+			continue
+		}
+		pp := core.PkgPath(f)
+		if !(pp == core.Module+"/pkg/utils" || pp == core.Module+"/pkg/tree" || pp == core.Module+"/pkg/datastore/target/netconf" || pp == core.Module+"/pkg/datastore") {
+			continue
+		}
+		for _, b := range f.Blocks {
+			for _, in := range b.Instrs {
+				cv, ok := in.(*ssa.Convert)
+				if !ok {
+					continue
+				}
+				lossy, why := lossyConvert(cv.X.Type(), cv.Type())
+				if !lossy {
+					continue
+				}
+				src := numericValueSource(cv.X)
+				if src == "" {
+					continue
+				}
+				site := core.Site(f, "convert %s -> %s of %s", cv.X.Type(), cv.Type(), shortSrc(src))
+				if wordBits == 32 {
+					// decided for the shipped 64-bit targets; a conversion that is lossy only because int is 32 bits is reported as information
+					wordBits = 64
+					l64, _ := lossyConvert(cv.X.Type(), cv.Type())
+					wordBits = 32
+					if !l64 {
+						r.Info(ruleName, site, w.InstrPos(cv), "portability: lossy ("+why+") only when int is 32 bits; the released binaries are 64-bit")
+						continue
+					}
+				}
+				nLossy++
+				reason, ok := lossyExceptions[core.FuncKey(f)+"|"+cv.X.Type().String()+"->"+cv.Type().String()]
+				if !ok {
+					// code moved into an unexported helper keeps the exception of the function it was moved out of
+					reason, ok = lossyExceptions[core.HostKey(f)+"|"+cv.X.Type().String()+"->"+cv.Type().String()]
+				}
+				if ok {
+					r.OK(ruleName, site, w.InstrPos(cv), "frozen exception: "+reason)
+					continue
+				}
+				// ParseInt/ParseUint with a bit size <= destination width is bounded
+				if bounded(cv) {
+					r.OK(ruleName, site, w.InstrPos(cv), "source bounded by the parse bit size")
+					continue
+				}
+				r.Viol(ruleName, site, w.InstrPos(cv), "lossy conversion ("+why+") of a value / schema bound")
+			}
+		}
+	}
+	r.Extra["lossy_candidates"] = nLossy
+
+	// ---- TYPE-NAMES
+	r.Rule("TYPE-NAMES", 50, "each string switch over YANG type names covers the 19 built-in types of RFC 7950 or the missing ones are listed with the policy of the no-match path (preserves / rejects), confirmed by reading.")
+	for _, ts := range typeNameSwitches {
+		f := w.Func(ts.Pkg, ts.Recv, ts.Name)
+		if f == nil {
+			continue
+		}
+		have := stringSwitchConsts(f)
+		// the table form of the switch: the keys of a package-level map of converters looked up by the type name
+		for _, c := range core.Calls(f) {
+			if _, table := dispatchTable(w, c); table != nil {
+				for k := range table {
+					have[k] = true
+				}
+			}
+		}
+		for _, y := range yangTypes {
+			site := core.Site(f, "type %s", y)
+			if have[y] {
+				r.OK("TYPE-NAMES", site, w.Pos(f.Pos()), "case present")
+			} else if reason, ok := ts.Missing[y]; ok {
+				r.OK("TYPE-NAMES", site, w.Pos(f.Pos()), "no case: "+reason)
+			} else {
+				r.Viol("TYPE-NAMES", site, w.Pos(f.Pos()), "YANG built-in type without a case and without a recorded no-match policy: values of that type are dropped or mis-typed")
+			}
+		}
+	}
+	// the no-match path of convertStringToTv must not return (nil, nil)
+	if f := w.Func("pkg/utils", "", "convertStringToTv"); f != nil {
+		ok := true
+		for _, ret := range core.Returns(f) {
+			vals := core.ReturnValues(ret)
+			if len(vals) == 2 && core.IsNilConst(vals[0]) && core.IsNilConst(vals[1]) {
+				ok = false
+			}
+		}
+		r.Check(ok, "TYPE-NAMES", core.Site(f, "no (nil, nil) return"), w.Pos(f.Pos()), "a conversion that yields neither a value nor an error drops the value silently")
+	}
+
+	// ---- DECIMAL-SIGN
+	r.Rule("DECIMAL-SIGN", 1, "rendering of decimal64: wherever an integer formatter (strconv.FormatInt, fmt.Sprintf, ...) receives a value that depends on Decimal64.Digits, it receives the whole number (no integer division / remainder in between) or the function tests the sign of Digits itself. A renderer that formats digits/10^p and |digits%10^p| separately drops the sign of every value in (-1,0). Structural necessary condition only; the digits themselves are not checked.")
+	ruleDecimalSign(w, r, "DECIMAL-SIGN")
 }
